@@ -12,7 +12,7 @@ use std::sync::{Arc, RwLock};
 
 use self::prioritize_chess_moves::sort_chess_moves;
 
-type SearchNode = (u64, i16, i16); // position_hash, alpha, beta
+type SearchNode = (u64, i16, i16, u8, bool); // position_hash, alpha, beta, depth, maximizing_player
 type SearchResult = i16; // best_score
 
 mod prioritize_chess_moves;
@@ -193,7 +193,13 @@ fn alpha_beta_minimax(
     beta: i16,
     maximizing_player: bool,
 ) -> Result<i16, SearchError> {
-    let search_node = (board.current_position_hash(), alpha, beta);
+    let search_node = (
+        board.current_position_hash(),
+        alpha,
+        beta,
+        depth,
+        maximizing_player,
+    );
     if let Some(score) = check_cache(context, search_node) {
         trace!(
             "{}alpha_beta_minimax returning cached score: {} for depth: {}",
